@@ -320,6 +320,7 @@ def main() -> int:
         "queries": {"total": tot["queries"], "unsat": tot["unsat"], "sat": tot["sat"], "unknown": tot["unknown"]},
         "solver_s": tot["solver_s"],
         "token_substitution_validation": {"n": tot["witness"], "agree": tot["witness_agree"]},
+        "cross_solver": {"solver": "cvc5 1.4 (wheel)", "n": tot.get("xsolver_n", 0), "agree": tot.get("xsolver_agree", 0), "disagree": tot.get("xsolver_disagree", 0), "cvc5_unknown": tot.get("xsolver_cvc5_unknown", 0), "errors": tot.get("xsolver_errors", 0)},
         "functions_encoded": repo_files(FILES),
         "bounds": "templates with <= 3 fields / 3 enum members / nesting depth 2; integers unbounded above (z3 Int), >= 0 (the lexer has no negative literals); <= 400 paths per template",
         "outside_claim": "digits -> number step of substituted tokens (Python int()); CLI exit status / absence of output files (observations; covered by native replay of violations only); schemas larger than the templates",
